@@ -156,6 +156,10 @@ func runProp(prop string, seed int64, count, scheds, dfsBound, dfsCap int) {
 // exploreDFS enumerates schedules with at most `bound` preemptions (iterative context bounding by
 // stateless re-execution), calling visit for every complete execution, at most cap executions.
 func exploreDFS(sc *Scenario, bound, cap int, visit func(*rt.Controller)) {
+	exploreGeneric(func(st rt.Strategy) *rt.Controller { return runScenario(sc, st) }, bound, cap, visit)
+}
+
+func exploreGeneric(runOnce func(rt.Strategy) *rt.Controller, bound, cap int, visit func(*rt.Controller)) {
 	type item struct {
 		prefix []rt.Choice
 		preempt int
@@ -166,7 +170,7 @@ func exploreDFS(sc *Scenario, bound, cap int, visit func(*rt.Controller)) {
 		it := stack[len(stack)-1]
 		stack = stack[:len(stack)-1]
 		rp := &rt.Replay{Choices: it.prefix}
-		c := runScenario(sc, rp)
+		c := runOnce(rp)
 		runs++
 		visit(c)
 		// alternatives beyond the prefix
